@@ -27,6 +27,7 @@ import (
 	"strconv"
 	"strings"
 	"testing"
+	"time"
 
 	"github.com/mgtv-tech/redis-GunYu/config"
 	"github.com/mgtv-tech/redis-GunYu/pkg/redis/checkpoint"
@@ -792,20 +793,22 @@ func vfc13ClientCmd(r *vfutil.Rand, w *vfc13World) vfc13Cmd {
 // ------------------------------------------------------------ the world
 
 type vfc13Link struct {
-	src, dst   int
-	cp         string
-	pos        int
-	off        int64
-	seq        int64
-	halted     bool
-	ro         *RedisOutput
-	tg         *vfdoubles.Target
-	conn       client.Redis
-	logMark    int
-	coord      *bisyncFrontierCoordinator
+	src, dst int
+	cp       string
+	pos      int
+	off      int64
+	halted   bool
+	mode     config.ReplayMode
+	ro       *RedisOutput
+	tg       *vfdoubles.Target
+	logMark  int
 }
 
+// a fresh real connection into the link's target double
+func (l *vfc13Link) dial() client.Redis { return conn.VerifNewRedisConn(l.tg.Dial(), l.ro.cfg.Redis) }
+
 type vfc13World struct {
+	t            *testing.T
 	s            *vfutil.Session
 	sites        [2]*vfc13Site
 	links        [2]*vfc13Link // links[i] reads site i
@@ -822,17 +825,16 @@ type vfc13World struct {
 
 func vfc13SiteName(i int) string { return string(rune('A' + i)) }
 
-func vfc13NewWorld(s *vfutil.Session, r *vfutil.Rand, ca, cb vfc13RedisCfg, fb string) *vfc13World {
-	w := &vfc13World{s: s, commitCount: map[string]int{}, foreignOK: map[int]bool{}, fb: fb}
+func vfc13NewWorld(t *testing.T, s *vfutil.Session, r *vfutil.Rand, ca, cb vfc13RedisCfg, fb string, mode config.ReplayMode) *vfc13World {
+	w := &vfc13World{t: t, s: s, commitCount: map[string]int{}, foreignOK: map[int]bool{}, fb: fb}
 	w.sites[0], w.sites[1] = vfc13NewSite(ca), vfc13NewSite(cb)
 	for i := 0; i < 2; i++ {
 		cp := fmt.Sprintf("redis-gunyu-checkpoint-bisync:%024x", r.U64())
 		tg := vfdoubles.NewTarget()
 		tg.Lenient = true
-		ro := vfc13NewOutput(false, fb, cp, nil, nil, nil)
-		l := &vfc13Link{src: i, dst: 1 - i, cp: cp, seq: 1, ro: ro, tg: tg}
-		l.conn = conn.VerifNewRedisConn(tg.Dial(), ro.cfg.Redis)
-		w.links[i] = l
+		ro := vfc13NewOutput(false, fb, cp, nil, nil, tg)
+		ro.cfg.ReplayMode = mode
+		w.links[i] = &vfc13Link{src: i, dst: 1 - i, cp: cp, ro: ro, tg: tg, mode: mode}
 	}
 	return w
 }
@@ -870,32 +872,48 @@ func (w *vfc13World) expire(site int, k []byte) {
 	w.sites[site].activeExpire(k, w.foreignTag(!vfc13IsReserved(k)))
 }
 
-// newRequests returns the write requests the link's target double received
-// since the last call, grouped: MULTI blocks and stand-alone commands.
-func (l *vfc13Link) newRequests(w *vfc13World) (blocks [][]vfc13Cmd, singles []vfc13Cmd) {
-	log := l.tg.LogCopy()
+// one thing the tool sent to the destination: a MULTI … EXEC block or a
+// stand-alone request
+type vfc13Req struct {
+	multi bool
+	cmds  []vfc13Cmd
+}
+
+// vfc13GroupLog turns target-double log entries into requests in arrival
+// order; reads are dropped (they are not propagated by a master).
+func vfc13GroupLog(entries []vfdoubles.LogEntry) []vfc13Req {
+	var out []vfc13Req
 	var cur []vfc13Cmd
 	in := false
-	for _, e := range log[l.logMark:] {
+	for _, e := range entries {
 		c := vfc13Cmd{Name: e.Args[0], Args: e.Args[1:]}
 		switch e.Cmd() {
 		case "multi":
 			in, cur = true, nil
 		case "exec":
-			blocks = append(blocks, cur)
+			out = append(out, vfc13Req{multi: true, cmds: cur})
 			in = false
-		case "select", "hget", "hgetall", "exists", "info", "ping", "zrangebyscore", "zcard", "get":
-			// reads are not propagated
+		case "select", "hget", "hgetall", "exists", "info", "ping", "zrangebyscore", "zcard", "get", "command":
 		default:
 			if in {
 				cur = append(cur, c)
 			} else {
-				singles = append(singles, c)
+				out = append(out, vfc13Req{cmds: []vfc13Cmd{c}})
 			}
 		}
 	}
+	return out
+}
+
+// newRequests: what the link's target double received since the last call
+func (l *vfc13Link) newRequests() []vfc13Req {
+	log := l.tg.LogCopy()
+	if l.logMark > len(log) {
+		l.logMark = len(log)
+	}
+	out := vfc13GroupLog(log[l.logMark:])
 	l.logMark = len(log)
-	return
+	return out
 }
 
 // classify a stand-alone bookkeeping request into the model's vocabulary
@@ -939,6 +957,8 @@ func (w *vfc13World) bookToken(l *vfc13Link, c vfc13Cmd) (string, bool) {
 		return fmt.Sprintf("hd:%s", vfutil.Hex(c.Args[1])), true
 	case name == "hset" && k == cp:
 		return fmt.Sprintf("rs:%s:%s", vfutil.HexS(cp), hexl(c.Args[1:])), true
+	case name == "hdel" && k == cp:
+		return fmt.Sprintf("rh:%s:%s", vfutil.HexS(cp), hexl(c.Args[1:])), true
 	case name == "hset" && checkpoint.IsBisyncLatestKey(k):
 		rest := strings.TrimPrefix(k, checkpoint.BisyncKeyPrefix+":"+cp+":latest:{")
 		tag := strings.TrimSuffix(rest, "}")
@@ -950,146 +970,221 @@ func (w *vfc13World) bookToken(l *vfc13Link, c vfc13Cmd) (string, bool) {
 	return "", false
 }
 
-// bookkeeping requests found in the target double's log are executed at the
-// destination site and reported as `b` events
-func (w *vfc13World) applyBookkeeping(l *vfc13Link, singles []vfc13Cmd) {
-	for _, c := range singles {
-		tok, ok := w.bookToken(l, c)
-		if !ok {
-			w.s.Violate("unmodelled-bookkeeping-traffic", "the tool wrote a stand-alone request the model has no form for: "+c.tok(),
-				map[string]interface{}{"cmd": c.tok()})
-			w.viol = true
-			continue
+// applyToolRequests: everything the tool sent outside a unit commit is
+// executed at the destination site (so that the opposite link meets it) and
+// reported to the model: a stand-alone request of the bookkeeping vocabulary
+// as a `b` event, anything else (a MULTI block without marker, an unknown
+// request) as a raw `r` event plus a violation — the tool's bookkeeping must
+// be stand-alone requests of known forms, only those are proved to be skipped.
+func (w *vfc13World) applyToolRequest(l *vfc13Link, q vfc13Req) {
+	name := vfc13SiteName(l.src)
+	if !q.multi {
+		c := q.cmds[0]
+		if tok, ok := w.bookToken(l, c); ok {
+			w.evs = append(w.evs, fmt.Sprintf("b%s:%s", name, tok))
+			w.sites[l.dst].exec(false, []vfc13Cmd{c}, func(int) string { return "book" })
+			w.s.Count("book_" + strings.SplitN(tok, ":", 2)[0])
+			return
 		}
-		w.evs = append(w.evs, fmt.Sprintf("b%s:%s", vfc13SiteName(l.src), tok))
+		w.s.Violate("unmodelled-bookkeeping-traffic", "the tool wrote a stand-alone request the model has no form for: "+c.tok(),
+			map[string]interface{}{"cmd": c.tok()})
+		w.viol = true
+		w.evs = append(w.evs, fmt.Sprintf("r%s:0:%s", name, c.tok()))
 		w.sites[l.dst].exec(false, []vfc13Cmd{c}, func(int) string { return "book" })
-		w.s.Count("book_" + strings.SplitN(tok, ":", 2)[0])
+		return
+	}
+	w.s.Violate("bookkeeping-inside-multi", "the tool sent a MULTI/EXEC block that is not a unit commit (no marker first): "+vfc13CmdsTok(q.cmds),
+		map[string]interface{}{"cmds": vfc13CmdsTok(q.cmds), "link": name})
+	w.viol = true
+	w.evs = append(w.evs, fmt.Sprintf("r%s:1:%s", name, vfc13CmdsTok(q.cmds)))
+	w.sites[l.dst].exec(true, q.cmds, func(int) string { return "book" })
+}
+
+func vfc13IsMarkerSet(c vfc13Cmd) bool {
+	return c.lower() == "set" && len(c.Args) == 4 && checkpoint.IsBisyncMarkerKey(string(c.Args[0]))
+}
+
+func (w *vfc13World) skipBlock(l *vfc13Link, kind string, blk vfc13Block) {
+	name := vfc13SiteName(l.src)
+	w.evs = append(w.evs, fmt.Sprintf("l%s:%s:-:.", name, kind))
+	w.s.Count("link_skip_" + blk.tag[:1])
+	if blk.tag[0] == 'f' {
+		var id int
+		fmt.Sscanf(blk.tag, "f%d", &id)
+		if w.foreignOK[id] && len(blk.cmds) > 0 {
+			w.s.Violate("foreign-block-suppressed", "a client/expiry block outside the reserved namespace was consumed by the link without being committed at the other site",
+				map[string]interface{}{"block": blk.tok(), "tag": blk.tag, "site": name, "redis": w.sites[l.src].cfg.bits()})
+			w.viol = true
+		}
 	}
 }
 
-// linkStep: the link reading site `src` handles its next block.
-func (w *vfc13World) linkStep(r *vfutil.Rand, src int, kind string) {
+// linkRun: the link reading site `src` runs the REAL send loop
+// (parseAofReplayUnits + sendBisyncSync/Pipeline/Parallel) over its next n blocks.
+func (w *vfc13World) linkRun(r *vfutil.Rand, src int, n int) bool {
 	l := w.links[src]
 	name := vfc13SiteName(src)
-	if l.halted {
-		w.evs = append(w.evs, fmt.Sprintf("l%s:%s:-:.", name, kind))
-		w.outcomes = append(w.outcomes, "L"+name+":halted")
-		return
+	kind := "j"
+	if l.mode == config.ReplayModeSync || l.mode == "" {
+		kind = "l"
 	}
-	if l.pos >= len(w.sites[src].stream) {
-		w.evs = append(w.evs, fmt.Sprintf("l%s:%s:-:.", name, kind))
-		w.outcomes = append(w.outcomes, "L"+name+":idle")
-		return
+	avail := len(w.sites[src].stream) - l.pos
+	if l.halted || avail <= 0 {
+		return false
 	}
-	blk := w.sites[src].stream[l.pos]
+	if n > avail {
+		n = avail
+	}
+	blocks := w.sites[src].stream[l.pos : l.pos+n]
 	var wire []byte
-	for _, c := range blk.wire() {
-		wire = append(wire, vfc13Resp(c)...)
-	}
-	units, err := vfc13Parse(l.ro, l.off, l.seq, wire)
-	status := vfc13ParseStatus(err)
-	replay := map[string]interface{}{"block": blk.tok(), "tag": blk.tag, "site": name, "redis": w.sites[src].cfg.bits()}
-	if status != "eof" {
-		l.halted = true
-		w.evs = append(w.evs, fmt.Sprintf("l%s:%s:-:.", name, kind))
-		w.outcomes = append(w.outcomes, "L"+name+":halt:"+status)
-		w.s.Count("link_halt")
-		if blk.tag[0] != 'f' {
-			w.s.Violate("tool-block-halts-opposite-link", "a block the tool wrote stops the opposite link: "+status, replay)
-			w.viol = true
+	ends := make([]int64, n)
+	for i, blk := range blocks {
+		for _, c := range blk.wire() {
+			wire = append(wire, vfc13Resp(c)...)
 		}
-		return
+		ends[i] = l.off + int64(len(wire))
 	}
-	l.pos++
-	l.off += int64(len(wire))
-	if len(units) == 0 {
-		w.evs = append(w.evs, fmt.Sprintf("l%s:%s:-:.", name, kind))
-		w.outcomes = append(w.outcomes, "L"+name+":skip")
-		w.s.Count("link_skip_" + blk.tag[:1])
-		if blk.tag[0] == 'f' {
-			var id int
-			fmt.Sscanf(blk.tag, "f%d", &id)
-			if w.foreignOK[id] && len(blk.cmds) > 0 {
-				w.s.Violate("foreign-block-suppressed", "a client/expiry block outside the reserved namespace did not come out of parseAofReplayUnits", replay)
-				w.viol = true
+	settle := time.Duration(0)
+	if r.Chance(1, 3) {
+		settle = 150 * time.Millisecond // lets the frontier ticker fire
+	}
+	l.newRequests()
+	err, log := vfBisyncLoopRun(w.t, l.ro, l.tg, "runid-"+name, wire, l.off, settle)
+	l.logMark = l.tg.LogLen()
+	status := vfc13ParseStatus(err)
+	w.s.Count("loop_run_" + string(l.mode))
+	next := 0
+	for _, q := range vfc13GroupLog(log) {
+		if !q.multi || len(q.cmds) == 0 || !vfc13IsMarkerSet(q.cmds[0]) {
+			w.applyToolRequest(l, q)
+			continue
+		}
+		txn := q.cmds
+		mv := txn[0].Args[1]
+		var m checkpoint.BisyncMarker
+		if json.Unmarshal(mv, &m) != nil {
+			w.s.Violate("marker-value-malformed", "marker value is not JSON", map[string]interface{}{"cmds": vfc13CmdsTok(txn)})
+			w.viol = true
+			continue
+		}
+		j := -1
+		for i := next; i < n; i++ {
+			if ends[i] == m.EndOffset {
+				j = i
+				break
 			}
 		}
-		return
+		if j < 0 {
+			w.s.Violate("commit-for-unknown-block", fmt.Sprintf("a unit with end offset %d was committed; no unread block ends there (already committed, or not a block boundary)", m.EndOffset),
+				map[string]interface{}{"cmds": vfc13CmdsTok(txn), "link": name})
+			w.viol = true
+			continue
+		}
+		for i := next; i < j; i++ {
+			w.skipBlock(l, kind, blocks[i])
+		}
+		next = j + 1
+		w.commitBlock(l, kind, blocks[j], txn, m)
 	}
-	if len(units) != 1 {
-		w.s.Violate("block-split-into-units", fmt.Sprintf("%d units from one block", len(units)), replay)
+	if status == "eof" {
+		for i := next; i < n; i++ {
+			w.skipBlock(l, kind, blocks[i])
+		}
+		l.pos += n
+		l.off = ends[n-1]
+		return true
+	}
+	// the loop stopped with an error: the model finds the block it stops at
+	l.halted = true
+	w.s.Count("link_halt")
+	toolOnly := true
+	for i := next; i < n; i++ {
+		w.evs = append(w.evs, fmt.Sprintf("l%s:%s:-:.", name, kind))
+		if blocks[i].tag[0] == 'f' {
+			toolOnly = false
+		}
+	}
+	w.outcomes = append(w.outcomes, "L"+name+":halt:"+status)
+	if toolOnly {
+		w.s.Violate("tool-block-halts-opposite-link", "only blocks the tool wrote were left to read, yet the opposite link stopped: "+status,
+			map[string]interface{}{"link": name, "status": status})
 		w.viol = true
 	}
-	u := units[0]
-	l.seq = u.Seq + 1
+	return true
+}
+
+// commitBlock: the MULTI block the target double received for the unit of
+// `blk` is judged, executed at the destination site, and reported.
+func (w *vfc13World) commitBlock(l *vfc13Link, kind string, blk vfc13Block, txn []vfc13Cmd, m checkpoint.BisyncMarker) {
+	name := vfc13SiteName(l.src)
+	replay := map[string]interface{}{"block": blk.tok(), "tag": blk.tag, "site": name, "redis": w.sites[l.src].cfg.bits(), "mode": string(l.mode)}
 	w.s.Count("link_emit_" + blk.tag[:1])
 	if blk.tag[0] != 'f' {
 		w.s.Violate("tool-block-came-back-as-unit", "something the tool wrote at this site came back as a replay unit: "+blk.tag+" "+blk.tok(), replay)
 		w.viol = true
 	}
-	// ---- commit at the destination through the real code into the target double
-	l.newRequests(w) // drop reads/earlier noise
-	if kind == "j" && l.coord == nil {
-		l.coord = newBisyncFrontierCoordinator(l.conn, checkpoint.BisyncFrontierKey(l.cp), l.cp, "in-1", u.Seq-1, u.StartOffset, "runid-"+name)
-	}
-	rec, _, cerr := l.ro.execBisyncUnit(l.conn, "runid-"+name, u, kind == "l")
-	if cerr != nil {
-		w.s.Violate("commit-failed", cerr.Error(), replay)
-		w.viol = true
-		return
-	}
-	blocks, singles := l.newRequests(w)
-	w.finishCommit(l, kind, blk, u, blocks, singles)
+	nCtl := 1
 	if kind == "j" {
-		if err := l.coord.onCommitted(rec); err != nil {
-			w.s.Violate("coordinator-error", err.Error(), replay)
-		}
-		if r.Chance(1, 3) {
-			if err := l.coord.flush(); err != nil {
-				w.s.Violate("coordinator-error", err.Error(), replay)
-			}
-		}
-		_, singles = l.newRequests(w)
-		w.applyBookkeeping(l, singles)
+		nCtl = 2
 	}
-}
-
-// finishCommit turns the logged MULTI block into the execution at the
-// destination site and records the link event with the observed payloads.
-func (w *vfc13World) finishCommit(l *vfc13Link, kind string, blk vfc13Block, u *bisyncReplayUnit, blocks [][]vfc13Cmd, singles []vfc13Cmd) {
-	name := vfc13SiteName(l.src)
-	replay := map[string]interface{}{"block": blk.tok(), "tag": blk.tag, "site": name}
-	if len(blocks) != 1 || len(singles) != 0 {
-		w.s.Violate("commit-not-one-transaction", fmt.Sprintf("%d MULTI blocks, %d stand-alone requests", len(blocks), len(singles)), replay)
-		w.viol = true
-		return
-	}
-	txn := blocks[0]
-	nCtl := 2
-	if kind == "j" {
-		nCtl = 3
-	}
-	if len(txn) != len(u.Commands)+nCtl || len(txn[0].Args) != 4 {
+	if len(txn) < 1+nCtl {
 		w.s.Violate("commit-shape", "committed transaction is not marker + business commands + record(+index)", replay)
 		w.viol = true
 		return
 	}
-	mv := txn[0].Args[1]
-	var m checkpoint.BisyncMarker
-	if json.Unmarshal(mv, &m) != nil || m.UnitSeq != u.Seq || m.Digest != u.Digest {
-		w.s.Violate("marker-value-malformed", "marker does not decode to its unit", replay)
+	business := txn[1 : len(txn)-nCtl]
+	rec := txn[len(txn)-nCtl]
+	okShape := rec.lower() == "hset" && len(rec.Args) > 0
+	if kind == "l" {
+		okShape = okShape && checkpoint.IsBisyncLatestKey(string(rec.Args[0]))
+	} else {
+		idx := txn[len(txn)-1]
+		okShape = okShape && checkpoint.IsBisyncCommitKey(string(rec.Args[0])) && idx.lower() == "zadd" && len(idx.Args) == 3 &&
+			checkpoint.IsBisyncCommitIndexKey(string(idx.Args[0]))
 	}
+	if !okShape {
+		w.s.Violate("commit-shape", "committed transaction is not marker + business commands + record(+index)", replay)
+		w.viol = true
+		return
+	}
+	// the business commands are the block's commands (names lower-cased), nothing else
+	same := len(business) == len(blk.cmds)
+	for i := 0; same && i < len(business); i++ {
+		if business[i].lower() != blk.cmds[i].lower() || len(business[i].Args) != len(blk.cmds[i].Args) {
+			same = false
+			break
+		}
+		for k := range business[i].Args {
+			if !bytes.Equal(business[i].Args[k], blk.cmds[i].Args[k]) {
+				same = false
+			}
+		}
+	}
+	if !same && blk.tag[0] == 'f' {
+		var id int
+		fmt.Sscanf(blk.tag, "f%d", &id)
+		if w.foreignOK[id] {
+			w.s.Violate("unit-content-differs", "the unit committed for a client block does not hold exactly the block's commands", replay)
+			w.viol = true
+		}
+	}
+	mv := txn[0].Args[1]
 	w.markerValues = append(w.markerValues, mv)
-	fields := txn[len(u.Commands)+1].Args[1:]
+	fields := rec.Args[1:]
 	w.evs = append(w.evs, fmt.Sprintf("l%s:%s:%s:%s", name, kind, vfutil.Hex(mv), vfutil.HexList(fields)))
-	w.outcomes = append(w.outcomes, fmt.Sprintf("L%s:emit:%s:%s", name, blk.tag, vfc13UnitTok(u)))
+	lc := make([]vfc13Cmd, len(business))
+	copy(lc, business)
+	t := "s"
+	if blk.multi {
+		t = "t"
+	}
+	w.outcomes = append(w.outcomes, fmt.Sprintf("L%s:emit:%s:U%d:%d-%d:%s:%d:%s", name, blk.tag, m.UnitSeq, m.StartOffset, m.EndOffset, t, m.Slot, vfc13CmdsTok(lc)))
 	id := strings.TrimLeft(blk.tag, "ft")
 	if blk.tag == "snap" || blk.tag == "book" {
 		id = "0"
 	}
 	w.sites[l.dst].exec(true, txn, func(int) string { return "t" + id })
-	ctag := blk.tag + "@" + vfc13SiteName(l.dst)
-	w.commits = append(w.commits, ctag)
+	w.commits = append(w.commits, blk.tag+"@"+vfc13SiteName(l.dst))
 	w.commitCount[blk.tag]++
 	if blk.tag[0] == 'f' && w.commitCount[blk.tag] > 1 {
 		w.s.Violate("write-applied-twice", "the unit of block "+blk.tag+" was committed more than once", replay)
@@ -1107,17 +1202,18 @@ func (w *vfc13World) snapshot(src int, cmds []vfc13Cmd) {
 	}
 	u := &bisyncReplayUnit{Seq: 1, StartOffset: l.off, EndOffset: l.off, Slot: 0, SlotTag: checkpoint.BisyncSlotTag(0),
 		Digest: bisyncDigest(aof), Commands: aof}
-	l.newRequests(w)
-	if err := l.ro.execBisyncRdbUnit(l.conn, "runid-"+name, u); err != nil {
+	l.newRequests()
+	if err := l.ro.execBisyncRdbUnit(l.dial(), "runid-"+name, u); err != nil {
 		w.s.Violate("commit-failed", err.Error(), map[string]interface{}{"cmds": vfc13CmdsTok(cmds)})
 		return
 	}
-	blocks, singles := l.newRequests(w)
-	if len(blocks) != 1 || len(singles) != 0 || len(blocks[0]) != len(cmds)+1 {
+	reqs := l.newRequests()
+	if len(reqs) != 1 || !reqs[0].multi || len(reqs[0].cmds) != len(cmds)+1 {
 		w.s.Violate("commit-not-one-transaction", "snapshot unit", map[string]interface{}{"cmds": vfc13CmdsTok(cmds)})
 		return
 	}
-	mv := blocks[0][0].Args[1]
+	txn := reqs[0].cmds
+	mv := txn[0].Args[1]
 	var m checkpoint.BisyncMarker
 	if json.Unmarshal(mv, &m) != nil || m.RecordType != "rdb" {
 		w.s.Violate("marker-value-malformed", "snapshot marker is not record_type=rdb", map[string]interface{}{})
@@ -1128,27 +1224,36 @@ func (w *vfc13World) snapshot(src int, cmds []vfc13Cmd) {
 		lc[i] = vfc13Cmd{Name: []byte(c.lower()), Args: c.Args}
 	}
 	w.evs = append(w.evs, fmt.Sprintf("s%s:%s:%s", name, vfutil.Hex(mv), vfc13CmdsTok(lc)))
-	w.sites[l.dst].exec(true, blocks[0], func(int) string { return "snap" })
+	w.sites[l.dst].exec(true, txn, func(int) string { return "snap" })
 	w.s.Count("snapshot_unit")
 }
 
-// namespace bookkeeping through the real checkpoint functions
+// namespace / checkpoint bookkeeping through the real checkpoint functions
 func (w *vfc13World) namespaceBookkeeping(r *vfutil.Rand, src int) {
 	l := w.links[src]
-	l.newRequests(w)
-	switch r.Intn(4) {
+	l.newRequests()
+	c := l.dial()
+	rid := "runid-" + vfc13SiteName(src)
+	switch r.Intn(7) {
 	case 0:
-		checkpoint.SetCheckpointHash(l.conn, "runid-"+vfc13SiteName(src), l.cp)
+		checkpoint.SetCheckpointHash(c, rid, l.cp)
 	case 1:
-		checkpoint.SaveBisyncNamespaceMode(l.conn, l.cp, checkpoint.BisyncModeSync)
+		checkpoint.SaveBisyncNamespaceMode(c, l.cp, checkpoint.BisyncModeSync)
 	case 2:
-		checkpoint.DelCheckpointHash(l.conn, "runid-old")
+		checkpoint.DelCheckpointHash(c, "runid-old")
+	case 3:
+		checkpoint.SetCheckpoint(c, &checkpoint.CheckpointInfo{Key: l.cp, RunId: rid, Offset: l.off, Version: "1"})
+	case 4:
+		checkpoint.UpdateCheckpoint(c, l.cp, []string{rid + "-new", rid})
+	case 5:
+		checkpoint.DelCheckpoint(c, l.cp, rid+"-gone")
 	default:
-		checkpoint.SaveBisyncFrontierSnapshot(l.conn, checkpoint.BisyncFrontierKey(l.cp),
-			&checkpoint.BisyncFrontierSnapshot{Version: "1", RunID: "runid-" + vfc13SiteName(src), UnitSeq: l.seq, Offset: l.off, MTime: 1})
+		checkpoint.SaveBisyncFrontierSnapshot(c, checkpoint.BisyncFrontierKey(l.cp),
+			&checkpoint.BisyncFrontierSnapshot{Version: "1", RunID: rid, UnitSeq: 1, Offset: l.off, MTime: 1})
 	}
-	_, singles := l.newRequests(w)
-	w.applyBookkeeping(l, singles)
+	for _, q := range l.newRequests() {
+		w.applyToolRequest(l, q)
+	}
 }
 
 func (w *vfc13World) pendingForeign() int {
@@ -1179,91 +1284,50 @@ func (w *vfc13World) streamTok(i int) string {
 	return strings.Join(p, " ")
 }
 
-func (w *vfc13World) finish(kind string) {
+func (w *vfc13World) finish() {
 	commits := "."
 	if len(w.commits) > 0 {
 		commits = strings.Join(w.commits, ",")
 	}
+	outs := "."
+	if len(w.outcomes) > 0 {
+		outs = strings.Join(w.outcomes, " ")
+	}
 	op := fmt.Sprintf("c13 world %s %s s %s %s %s %s", w.sites[0].cfg.bits(), w.sites[1].cfg.bits(), w.fb,
 		vfutil.HexS(w.links[0].cp), vfutil.HexS(w.links[1].cp), strings.Join(w.evs, " "))
-	w.s.Op(op, strings.Join(w.outcomes, " ")+" ; commits="+commits+" ; A="+w.streamTok(0)+" ; B="+w.streamTok(1))
+	w.s.Op(op, outs+" ; commits="+commits+" ; A="+w.streamTok(0)+" ; B="+w.streamTok(1))
 }
 
-// runHistory: a generated client history at both sites with the links running
-// in between, then a drain.
-func vfc13RunHistory(s *vfutil.Session, r *vfutil.Rand, nEv int, scripted []string) bool {
-	cfgs := func() vfc13RedisCfg { return vfc13RedisCfg{r.Bool(), r.Chance(3, 4), r.Chance(3, 4)} }
-	w := vfc13NewWorld(s, r, cfgs(), cfgs(), "none")
-	kind := vfutil.Pick(r, []string{"l", "j"})
-	s.Count("history_mode_" + kind)
-	for i := 0; i < nEv; i++ {
-		site := r.Intn(2)
-		switch x := r.Intn(100); {
-		case x < 30:
-			w.client(site, false, []vfc13Cmd{vfc13ClientCmd(r, w)}, true)
-		case x < 42:
-			n := r.Intn(4)
-			cmds := make([]vfc13Cmd, n)
-			for j := range cmds {
-				cmds[j] = vfc13ClientCmd(r, w)
-			}
-			w.client(site, true, cmds, true)
-		case x < 45:
-			// a client poking the reserved namespace (not vouched for)
-			k := []byte(vfutil.Pick(r, []string{"redis-gunyu-bisync:x", "redis-gunyu-checkpoint-x", checkpoint.BisyncMarkerKey(w.links[1-site].cp, checkpoint.BisyncSlotTag(0))}))
-			w.client(site, false, []vfc13Cmd{{Name: []byte("set"), Args: [][]byte{k, []byte("v")}}}, false)
-		case x < 55:
-			w.tick(site, int64(r.Range(1, 600)))
-		case x < 58:
-			w.tick(site, int64(86400000+r.Intn(5000))) // a day: markers expire
-		case x < 64:
-			k := vfc13BizKey(r)
-			if r.Chance(1, 3) {
-				k = []byte(checkpoint.BisyncMarkerKey(w.links[1-site].cp, checkpoint.BisyncSlotTag(0)))
-			}
-			w.expire(site, k)
-		case x < 90:
-			w.linkStep(r, site, kind)
-		case x < 94:
-			w.snapshot(site, []vfc13Cmd{vfc13ClientCmd(r, w)})
-		default:
-			w.namespaceBookkeeping(r, site)
-		}
-	}
-	// ---- drain: no more client writes; run the links until both are idle
+// drain: no more client writes; run the links until both have read everything
+func (w *vfc13World) drain(r *vfutil.Rand) {
+	s := w.s
 	pending := w.pendingForeign()
 	emittedBefore := len(w.commits)
-	steps := 0
 	unread := 0
 	for i := 0; i < 2; i++ {
 		unread += len(w.sites[i].stream) - w.links[i].pos
 	}
 	// every unread block is read once, and each pending client block adds at
-	// most one more block to read
-	maxSteps := 2*(unread+pending) + 8
+	// most one more block to read: a handful of rounds suffices
+	maxRounds := 2*(unread+pending) + 8
+	rounds := 0
 	for {
 		progressed := false
 		for i := 0; i < 2; i++ {
-			l := w.links[i]
-			if !l.halted && l.pos < len(w.sites[i].stream) {
-				w.linkStep(r, i, kind)
+			if w.linkRun(r, i, 1<<30) {
 				progressed = true
-				steps++
 			}
 		}
 		if !progressed {
 			break
 		}
-		if steps > maxSteps {
-			s.Violate("no-quiescence", fmt.Sprintf("links still have work after %d steps without client writes (%d blocks were unread when the writes stopped)", steps, unread),
+		rounds++
+		if rounds > maxRounds {
+			s.Violate("no-quiescence", fmt.Sprintf("links still have work after %d rounds without client writes (%d blocks were unread when the writes stopped)", rounds, unread),
 				map[string]interface{}{"events": strings.Join(w.evs, " ")})
 			w.viol = true
 			break
 		}
-	}
-	// one more round: nothing to do
-	for i := 0; i < 2; i++ {
-		w.linkStep(r, i, kind)
 	}
 	if got := len(w.commits) - emittedBefore; got > pending {
 		s.Violate("no-quiescence", fmt.Sprintf("%d units were committed during the drain, only %d foreign blocks were pending", got, pending),
@@ -1286,7 +1350,55 @@ func vfc13RunHistory(s *vfutil.Session, r *vfutil.Rand, nEv int, scripted []stri
 			}
 		}
 	}
-	w.finish(kind)
+}
+
+// runHistory: a generated client history at both sites with the links running
+// the real send loop in between, then a drain.
+func vfc13RunHistory(t *testing.T, s *vfutil.Session, r *vfutil.Rand, nEv int) bool {
+	cfgs := func() vfc13RedisCfg { return vfc13RedisCfg{r.Bool(), r.Chance(3, 4), r.Chance(3, 4)} }
+	mode := vfutil.Pick(r, []config.ReplayMode{config.ReplayModeSync, config.ReplayModePipeline, config.ReplayModeParallel})
+	w := vfc13NewWorld(t, s, r, cfgs(), cfgs(), "none", mode)
+	s.Count("history_mode_" + string(mode))
+	for i := 0; i < nEv; i++ {
+		site := r.Intn(2)
+		switch x := r.Intn(100); {
+		case x < 30:
+			w.client(site, false, []vfc13Cmd{vfc13ClientCmd(r, w)}, true)
+		case x < 42:
+			n := r.Intn(4)
+			if r.Chance(1, 6) {
+				n = r.Range(9, 40) // long transactions: beyond BatchCmdCount and the unit channel
+				s.Count("long_client_txn")
+			}
+			cmds := make([]vfc13Cmd, n)
+			for j := range cmds {
+				cmds[j] = vfc13ClientCmd(r, w)
+			}
+			w.client(site, true, cmds, true)
+		case x < 45:
+			// a client poking the reserved namespace (not vouched for)
+			k := []byte(vfutil.Pick(r, []string{"redis-gunyu-bisync:x", "redis-gunyu-checkpoint-x", checkpoint.BisyncMarkerKey(w.links[1-site].cp, checkpoint.BisyncSlotTag(0))}))
+			w.client(site, false, []vfc13Cmd{{Name: []byte("set"), Args: [][]byte{k, []byte("v")}}}, false)
+		case x < 55:
+			w.tick(site, int64(r.Range(1, 600)))
+		case x < 58:
+			w.tick(site, int64(86400000+r.Intn(5000))) // a day: markers expire
+		case x < 64:
+			k := vfc13BizKey(r)
+			if r.Chance(1, 3) {
+				k = []byte(checkpoint.BisyncMarkerKey(w.links[1-site].cp, checkpoint.BisyncSlotTag(0)))
+			}
+			w.expire(site, k)
+		case x < 90:
+			w.linkRun(r, site, r.Range(1, 6))
+		case x < 94:
+			w.snapshot(site, []vfc13Cmd{vfc13ClientCmd(r, w)})
+		default:
+			w.namespaceBookkeeping(r, site)
+		}
+	}
+	w.drain(r)
+	w.finish()
 	s.Add("world_blocks", len(w.sites[0].stream)+len(w.sites[1].stream))
 	return w.viol
 }
@@ -1405,7 +1517,11 @@ func TestVerifC13(t *testing.T) {
 				stream = append(stream, vfc13ClientCmd(r, nil))
 			case x < 20:
 				stream = append(stream, vfc13C("MULTI"))
-				for q, m := 0, r.Intn(4); q < m; q++ {
+				m := r.Intn(4)
+				if r.Chance(1, 5) {
+					m = r.Range(9, 40)
+				}
+				for q := 0; q < m; q++ {
 					stream = append(stream, vfc13ClientCmd(r, nil))
 				}
 				if r.Chance(9, 10) {
@@ -1418,7 +1534,11 @@ func TestVerifC13(t *testing.T) {
 					stream = append(stream, vfc13C(vfutil.Pick(r, []string{"del", "UNLINK"}), checkpoint.BisyncMarkerKey(cp, tag)))
 				}
 				stream = append(stream, vfc13C("set", checkpoint.BisyncMarkerKey(cp, tag), "mv", "PXAT", "99999"))
-				for q, m := 0, r.Intn(3); q < m; q++ {
+				nb := r.Intn(3)
+				if r.Chance(1, 4) {
+					nb = r.Range(9, 40) // the mirror of a long client transaction
+				}
+				for q := 0; q < nb; q++ {
 					stream = append(stream, vfc13ClientCmd(r, nil))
 				}
 				stream = append(stream, vfc13C("hset", checkpoint.BisyncLatestCheckpointKey(cp, tag), "version", "1"))
@@ -1477,21 +1597,24 @@ func TestVerifC13(t *testing.T) {
 		s.Add("parse_units", len(units))
 	}
 
+	// ---- databases: a write made in DB n at one site must be applied in DB n at the other
+	vfc13DbProbe(t, s)
+
 	// ---- corpus (scripted histories) then generated histories
 	for _, l := range vfutil.Corpus("C13") {
-		if vfc13RunScript(s, l) {
+		if vfc13RunScript(t, s, l) {
 			s.Count("corpus_violation")
 		}
 	}
 	for i := 0; i < vfutil.Scale(250, 6000); i++ {
-		vfc13RunHistory(s, r.Fork(), r.Range(10, 70), nil)
+		vfc13RunHistory(t, s, r.Fork(), r.Range(10, 70))
 		s.Count("histories")
 	}
 }
 
 // vfc13RunScript replays a corpus history: tokens
-//   cfg=<bitsA>,<bitsB> kind=<l|j>  c<S>:<cmd>  m<S>:<cmd>/…  t<S>:<dt>  x<S>:<hexkey>  l<S>
-func vfc13RunScript(s *vfutil.Session, line string) bool {
+//   cfg=<bitsA>,<bitsB> kind=<l|j|p> (sync | pipeline | parallel send loop)  c<S>:<cmd>  m<S>:<cmd>/…  t<S>:<dt>  x<S>:<hexkey>  l<S>
+func vfc13RunScript(t *testing.T, s *vfutil.Session, line string) bool {
 	r := vfutil.NewRand(7)
 	ca, cb := vfc13RedisCfg{false, true, true}, vfc13RedisCfg{false, true, true}
 	kind := "l"
@@ -1509,7 +1632,13 @@ func vfc13RunScript(s *vfutil.Session, line string) bool {
 			evs = append(evs, t)
 		}
 	}
-	w := vfc13NewWorld(s, r, ca, cb, "none")
+	mode := config.ReplayModeSync
+	if kind == "j" {
+		mode = config.ReplayModePipeline
+	} else if kind == "p" {
+		mode = config.ReplayModeParallel
+	}
+	w := vfc13NewWorld(t, s, r, ca, cb, "none", mode)
 	parseCmd := func(tok string) vfc13Cmd {
 		parts := strings.Split(tok, ",")
 		c := vfc13Cmd{Name: vfutil.UnHex(parts[0])}
@@ -1541,9 +1670,55 @@ func vfc13RunScript(s *vfutil.Session, line string) bool {
 		case 'x':
 			w.expire(site, vfutil.UnHex(body))
 		case 'l':
-			w.linkStep(r, site, kind)
+			w.linkRun(r, site, 1)
 		}
 	}
-	w.finish(kind)
+	w.finish()
 	return w.viol
+}
+
+// vfc13DbProbe: what a master propagates for client writes in DB 3 (SELECT 3,
+// then the commands) goes through the real send loop; the monitor compares the
+// database each unit is executed in at the target with the database it was
+// written in at the source.
+func vfc13DbProbe(t *testing.T, s *vfutil.Session) {
+	for _, mode := range []config.ReplayMode{config.ReplayModeSync, config.ReplayModePipeline, config.ReplayModeParallel} {
+		cp := "redis-gunyu-checkpoint-bisync:00000000000000000000db03"
+		tg := vfdoubles.NewTarget()
+		tg.Lenient = true
+		ro := vfc13NewOutput(false, "none", cp, nil, nil, tg)
+		ro.cfg.ReplayMode = mode
+		type src struct {
+			db   int
+			cmds []vfc13Cmd
+		}
+		stream := []vfc13Cmd{vfc13C("SELECT", "3"), vfc13C("SET", "k0", "v"), vfc13C("MULTI"), vfc13C("INCRBY", "n0", "1"), vfc13C("EXEC"),
+			vfc13C("SELECT", "0"), vfc13C("SET", "k1", "v")}
+		wantDB := []int{3, 3, 0}
+		var wire []byte
+		for _, c := range stream {
+			wire = append(wire, vfc13Resp(c)...)
+		}
+		err, log := vfBisyncLoopRun(t, ro, tg, "runid-db", wire, 0, 0)
+		if st := vfc13ParseStatus(err); st != "eof" {
+			s.Violate("db-probe-failed", st, map[string]interface{}{"mode": string(mode)})
+			continue
+		}
+		unit := 0
+		for _, e := range log {
+			if e.Cmd() != "exec" {
+				continue
+			}
+			if unit < len(wantDB) && e.DB != wantDB[unit] {
+				s.Violate("unit-applied-in-other-database",
+					fmt.Sprintf("a write made in DB %d at the source was committed in DB %d at the other site (the unit carries Db=%d, dispatchBisyncUnit never selects it)", wantDB[unit], e.DB, wantDB[unit]),
+					map[string]interface{}{"src_db": wantDB[unit], "dst_db": e.DB, "mode": string(mode), "stream": vfc13CmdsTok(stream)})
+			}
+			unit++
+		}
+		if unit != len(wantDB) {
+			s.Violate("db-probe-failed", fmt.Sprintf("%d units committed, want %d", unit, len(wantDB)), map[string]interface{}{"mode": string(mode)})
+		}
+		s.Count("db_probe_" + string(mode))
+	}
 }
